@@ -52,6 +52,10 @@ type ByteSlice struct {
 	// Resliced: obtained by x[lo:hi] from another opaque []byte, i.e. it shares that slice's
 	// backing array (possibly with spare capacity). Appending to it may write through.
 	Resliced bool
+	// Vol / Epoch: the slice points into a bufio.Reader's internal buffer (result of ReadLine);
+	// bufio documents it as valid only until the next read on that reader.
+	Vol   *readerState
+	Epoch int
 }
 
 type ByteArr struct {
